@@ -70,8 +70,124 @@ def inventory():
     return names
 
 
+# ------------------------------------------------------------------ fixed-width (numpy scalar) intermediates
+KERNELS = {"spinn5_local_eth_coord": ["x", "y", "w", "h", "root_x", "root_y"],
+           "spinn5_chip_coord": ["x", "y", "root_x", "root_y"]}
+
+
+def steps(fn_name):
+    """Coq list of every value that takes part in fixed-width arithmetic when the kernel's arguments are
+    numpy integer scalars of one dtype: the result of each operation with an argument-typed operand, and
+    each Python-int operand of such an operation (numpy converts it to the dtype and raises if it does not
+    fit).  int(...) leaves the dtype (Python int arithmetic is unbounded).  Anything else: fail."""
+    import ast
+    import py2v
+    import units_c19
+    spec = [s for s in units_c19.UNITS["GenBoard"]["functions"] if s["name"] == fn_name][0]
+    with open(geometry.__file__.replace(".pyc", ".py")) as f:
+        node = py2v.find_function(ast.parse(f.read()), fn_name)
+    body = [s for s in node.body if not (isinstance(s, ast.Expr) and isinstance(s.value, ast.Constant))]
+    params = KERNELS[fn_name]
+    if [a.arg for a in node.args.args] != params or len(body) != 2:
+        raise SystemExit("%s: not `dx, dy = TABLE[i][j]; return ...`" % fn_name)
+    tr = py2v.Fn(node, spec, {})
+    for p in params:
+        tr.types[p] = "Z"
+    asg, ret = body
+    if not (isinstance(asg, ast.Assign) and len(asg.targets) == 1 and isinstance(asg.targets[0], ast.Tuple)
+            and all(isinstance(t, ast.Name) for t in asg.targets[0].elts) and isinstance(ret, ast.Return)):
+        raise SystemExit("%s: not `dx, dy = TABLE[i][j]; return ...`" % fn_name)
+    elems = [t.id for t in asg.targets[0].elts]
+    out = []
+
+    def walk(e):
+        if isinstance(e, ast.Constant) and type(e.value) is int:
+            return "weak"
+        if isinstance(e, ast.Name):
+            if e.id in params:
+                return "narrow"
+            if e.id in elems:
+                return "elem"
+            raise SystemExit("%s: name %s" % (fn_name, e.id))
+        if isinstance(e, ast.Call) and isinstance(e.func, ast.Name) and e.func.id == "int" and len(e.args) == 1 \
+                and not e.keywords:
+            walk(e.args[0])
+            return "wide"
+        if isinstance(e, ast.Tuple):
+            for x in e.elts:
+                walk(x)
+            return "tuple"
+        if isinstance(e, ast.UnaryOp) and isinstance(e.op, ast.USub):
+            k = walk(e.operand)
+            if k == "elem":
+                raise SystemExit("%s: arithmetic on a table element outside int()" % fn_name)
+            if k == "narrow":
+                out.append(tr.as_Z(e))
+            return k
+        if isinstance(e, ast.BinOp):
+            kl, kr = walk(e.left), walk(e.right)
+            if "elem" in (kl, kr) or "tuple" in (kl, kr):
+                raise SystemExit("%s: arithmetic on a table element outside int()" % fn_name)
+            if "narrow" in (kl, kr):
+                for side, k in ((e.left, kl), (e.right, kr)):
+                    if k != "narrow":
+                        out.append(tr.as_Z(side))
+                out.append(tr.as_Z(e))
+                return "narrow"
+            return "wide"
+        raise SystemExit("%s line %d: expression outside the subset" % (fn_name, e.lineno))
+    v = asg.value
+    if not (isinstance(v, ast.Subscript) and isinstance(v.value, ast.Subscript)
+            and isinstance(v.value.value, ast.Name) and v.value.value.id == "SPINN5_ETH_OFFSET"):
+        raise SystemExit("%s: not a lookup in SPINN5_ETH_OFFSET" % fn_name)
+    for idx in (v.value.slice, v.slice):
+        if walk(idx) not in ("narrow", "weak"):
+            raise SystemExit("%s: table index" % fn_name)
+    lookup, _ = tr.expr(v)
+    for n in elems:
+        tr.types[n] = "Z"
+    walk(ret.value)
+    return ("Definition %s_steps %s : list Z :=\n  let '(%s) := %s in\n  [%s].\n"
+            % (fn_name, " ".join("(%s : Z)" % p for p in params), ", ".join(elems), lookup, ";\n   ".join(out)))
+
+
+# ------------------------------------------------------------------ shape of the hand-modelled functions
+SHAPES = {
+    "standard_system_dimensions": "4bbe23d873020c249c483b94",
+    "spinn5_eth_coords": "a0a34056db44feb65ec6ee2d",
+    "spinn5_fpga_link": "902b2347d2e35e94cced1e82",
+}
+
+
+def shape_digest(fn_name):
+    import ast
+    import hashlib
+    import py2v
+    with open(geometry.__file__.replace(".pyc", ".py")) as f:
+        node = py2v.find_function(ast.parse(f.read()), fn_name)
+    body = [s for s in node.body if not (isinstance(s, ast.Expr) and isinstance(s.value, ast.Constant)
+                                         and isinstance(s.value.value, str))]
+    text = ast.dump(node.args) + "|" + "|".join(ast.dump(s) for s in body) + "|" + repr(node.decorator_list)
+    return hashlib.sha256(text.encode()).hexdigest()[:24]
+
+
+def check_shapes():
+    """Model/Board.v models these three functions by hand (generator, dict lookup, loop with a float square
+    root).  Their parameter lists, defaults and statements (comments and docstrings apart) must be the text
+    the model was written from; otherwise the model cannot be vouched for and the unit fails."""
+    for fn, want in SHAPES.items():
+        got = shape_digest(fn)
+        if got != want:
+            raise SystemExit("rig/geometry.py: the statements of %s are not those Model/Board.v was written from "
+                             "(ast digest %s, expected %s)" % (fn, got, want))
+
+
 def main():
+    if "--shapes" in sys.argv:
+        print({fn: shape_digest(fn) for fn in SHAPES})
+        return
     mutable = inventory()
+    check_shapes()
     out = [D.HEADER % "dump_c19.py"]
     out.append("(* inventory: module-level mutable objects of rig/geometry.py (no `global` statement, no decorator,\n"
                "   no store into an object in the board geometry functions): %s *)\n" % ", ".join(mutable))
@@ -88,6 +204,9 @@ def main():
                "   never produced. *)\n")
     out.append(D.definition("SPINN5_ETH_OFFSET_at (i j : Z)", "Z * Z",
                             "nth (Z.to_nat j) (nth (Z.to_nat i) SPINN5_ETH_OFFSET []) (0, 0)"))
+    out.append("(* values that take part in fixed-width arithmetic when the arguments are numpy integer scalars *)\n")
+    for fn in KERNELS:
+        out.append(steps(fn))
     f = geometry.SPINN5_FPGA_LINKS
     if not isinstance(f, dict):
         raise SystemExit("SPINN5_FPGA_LINKS is not a dict")
